@@ -5,11 +5,14 @@
    ev <Event> [n]                       apply one model event: "ok <state>" | "rej <state>"
    state                                print the state
    enabled                              events the model allows next
-   obs <S> <Enq> <B1> <B2> <Ok> <Fail> <ret>
+   obs <S> <Enq> <B1> <B2> <Ok> <Fail> <ret> [<ROk> <RFail>]
                                         explain a quiescent observation of the real walker+pool by
                                         internal events (Start, CancelRecv, Pick, Reject, WalkReturn),
                                         each applied through the extracted [step]; then compare in
-                                        both directions: "ok <state>" | "BREAK <why> | <state>"
+                                        both directions: "ok <state>" | "BREAK <why> | <state>".
+                                        Ok/Fail = the walker's own completions map (model: st),
+                                        ROk/RFail = the map Walk returned to its caller, as it is NOW
+                                        (model: snap, the snapshot taken by WalkReturn)
    replay <W> <ff> <deps> <ev;ev;...>   one line: per event accepted?/state, '|' separated
    explore <W> <ff> <deps> <maxstates>  bounded exhaustive exploration (tiny graphs)
    walk <W> <ff> <deps> <seed> <cancelpct>  one seeded random walk of the model to a terminal state *)
@@ -30,10 +33,12 @@ let normalise (cx : ctx) (s : state) : state =
   let sa = Array.init n (fun i -> s.st cx.nats.(i)) in
   let ca = Array.init n (fun i -> s.cp cx.nats.(i)) in
   let ma = Array.init n (fun i -> s.cmd cx.nats.(i)) in
+  let na = Array.init n (fun i -> s.snap cx.nats.(i)) in
+  let dflt_snap = s.snap cx.nats.(n) in
   let dflt_st = s.st cx.nats.(n) and dflt_cp = s.cp cx.nats.(n) and dflt_cmd = s.cmd cx.nats.(n) in
   let idx f d = fun (k : nat) -> let i = int_of_nat k in if i < n then f i else d in
   { s with st = idx (fun i -> sa.(i)) dflt_st; cp = idx (fun i -> ca.(i)) dflt_cp;
-           cmd = idx (fun i -> ma.(i)) dflt_cmd }
+           cmd = idx (fun i -> ma.(i)) dflt_cmd; snap = idx (fun i -> na.(i)) dflt_snap }
 
 let mk_ctx w ffb (deps : string) : ctx =
   let a = parse_graph deps in
@@ -54,14 +59,21 @@ let nodes_where (cx : ctx) (p : int -> bool) : string =
   for i = cx.n - 1 downto 0 do if p i then l := string_of_int i :: !l done;
   String.concat "," !l
 
+(* the caller's map lags behind the walker's own map (completions recorded after Walk returned) *)
+let late (cx : ctx) (s : state) : bool =
+  let r = ref false in
+  for i = 0 to cx.n - 1 do if s.snap cx.nats.(i) <> entry_of (s.st cx.nats.(i)) then r := true done;
+  s.ret && !r
+
 let show (cx : ctx) : string =
   let s = cx.s in
   let by ch = nodes_where cx (fun i -> st_char (s.st cx.nats.(i)) = ch) in
-  Printf.sprintf "P=%s R=%s Q=%s X=%s O=%s F=%s S=%s A=%s cp=%s cmd=%s fft=%s ctx=%s dead=%d ret=%s race=%s run=%d term=%s"
+  Printf.sprintf "P=%s R=%s Q=%s X=%s O=%s F=%s S=%s A=%s cp=%s cmd=%s fft=%s ctx=%s dead=%d ret=%s rok=%s rfail=%s late=%s run=%d term=%s"
     (by 'P') (by 'R') (by 'Q') (by 'X') (by 'O') (by 'F') (by 'S') (by 'A')
     (nodes_where cx (fun i -> s.cp cx.nats.(i))) (nodes_where cx (fun i -> s.cmd cx.nats.(i)))
-    (b01 s.fft) (b01 s.ctxc) (int_of_nat s.dead) (b01 s.ret) (b01 s.race)
-    (int_of_nat (running cx.g s)) (b01 (terminalb cx.g cx.c s))
+    (b01 s.fft) (b01 s.ctxc) (int_of_nat s.dead) (b01 s.ret)
+    (nodes_where cx (fun i -> s.snap cx.nats.(i) = Success)) (nodes_where cx (fun i -> s.snap cx.nats.(i) = Failure))
+    (b01 (late cx s)) (int_of_nat (running cx.g s)) (b01 (terminalb cx.g cx.c s))
 
 let key (cx : ctx) : string =
   let s = cx.s in
@@ -69,9 +81,10 @@ let key (cx : ctx) : string =
   for i = 0 to cx.n - 1 do
     Buffer.add_char b (st_char (s.st cx.nats.(i)));
     Buffer.add_char b (if s.cp cx.nats.(i) then 'c' else '.');
-    Buffer.add_char b (if s.cmd cx.nats.(i) then 'm' else '.')
+    Buffer.add_char b (if s.cmd cx.nats.(i) then 'm' else '.');
+    Buffer.add_char b (match s.snap cx.nats.(i) with Absent -> '.' | Success -> 's' | Failure -> 'f')
   done;
-  Buffer.add_string b (Printf.sprintf "%s%s%d%s%s" (b01 s.fft) (b01 s.ctxc) (int_of_nat s.dead) (b01 s.ret) (b01 s.race));
+  Buffer.add_string b (Printf.sprintf "%s%s%d%s" (b01 s.fft) (b01 s.ctxc) (int_of_nat s.dead) (b01 s.ret));
   Buffer.contents b
 
 let ev_name = function
@@ -109,11 +122,20 @@ module IS = Set.Make (Int)
 let set_of s = List.fold_left (fun a x -> IS.add x a) IS.empty (ints s)
 let show_set s = String.concat "," (List.map string_of_int (IS.elements s))
 
-let observe (cx : ctx) sS sEnq sB1 sB2 sOk sFail (oret : bool) : string =
+let observe (cx : ctx) sS sEnq sB1 sB2 sOk sFail (oret : bool) (returned : (IS.t * IS.t) option) : string =
   let sE = IS.union sB1 sB2 in
   let stat i = cx.s.st cx.nats.(i) in
   let progress = ref true in
   let why = ref [] in
+  let model_set p = let r = ref IS.empty in for i = 0 to cx.n - 1 do if p i then r := IS.add i !r done; !r in
+  (* Walk returns and rejected callbacks complete in the same burst, in either order (both orders are
+     schedules of the model): the observed returned map tells which rejections the snapshot saw.  A
+     rejection it did not see is explained after WalkReturn. *)
+  let to_return () = oret && not cx.s.ret in
+  let unseen i = match returned with Some (_, rFail) -> not (IS.mem i rFail) | None -> false in
+  let own_is_returned () = match returned with
+    | Some (rOk, rFail) -> IS.equal rOk (model_set (fun i -> stat i = Ok)) && IS.equal rFail (model_set (fun i -> stat i = Failed))
+    | None -> true in
   while !progress do
     progress := false;
     for i = 0 to cx.n - 1 do
@@ -121,14 +143,14 @@ let observe (cx : ctx) sS sEnq sB1 sB2 sOk sFail (oret : bool) : string =
       (match stat i with
        | Ready when IS.mem i sS -> if apply cx (Start k) then progress := true
        | (Parked | Ready) when (not (IS.mem i sS)) && cx.s.cp k -> if apply cx (CancelRecv k) then progress := true
-       | Queued when IS.mem i sFail -> if apply cx (Reject k) then progress := true
+       | Queued when IS.mem i sFail && not (to_return () && unseen i) -> if apply cx (Reject k) then progress := true
        | Queued when IS.mem i sE -> if apply cx (Pick k) then progress := true
        | _ -> ())
     done;
-    if oret && not cx.s.ret then (if apply cx WalkReturn then progress := true)
+    if to_return () && own_is_returned () then (if apply cx WalkReturn then progress := true);
+    if (not !progress) && to_return () then (if apply cx WalkReturn then progress := true)
   done;
   let s = cx.s in
-  let model_set p = let r = ref IS.empty in for i = 0 to cx.n - 1 do if p i then r := IS.add i !r done; !r in
   let cmp name real model =
     if not (IS.equal real model) then
       why := Printf.sprintf "%s: real={%s} model={%s}" name (show_set real) (show_set model) :: !why in
@@ -138,6 +160,11 @@ let observe (cx : ctx) sS sEnq sB1 sB2 sOk sFail (oret : bool) : string =
   cmp "completed-ok" sOk (model_set (fun i -> stat i = Ok));
   cmp "completed-failed" sFail (model_set (fun i -> stat i = Failed));
   if oret <> s.ret then why := Printf.sprintf "walk-returned: real=%b model=%b" oret s.ret :: !why;
+  (match returned with
+   | Some (rOk, rFail) ->
+     cmp "returned-map-ok" rOk (model_set (fun i -> s.snap cx.nats.(i) = Success));
+     cmp "returned-map-failed" rFail (model_set (fun i -> s.snap cx.nats.(i) = Failure))
+   | None -> ());
   (* the other direction: what the model says must have happened by quiescence *)
   for i = 0 to cx.n - 1 do
     (match stat i with
@@ -166,7 +193,7 @@ let explore w ffb deps maxstates : string =
   let q = Queue.create () in
   Hashtbl.add seen (key cx) (); Queue.add (cx.s, 0) q;
   let states = ref 0 and terminals = ref 0 and deadlocks = ref 0 and df = ref 0 and bound = ref 0
-  and maxlen = ref 0 and races = ref 0 and capped = ref false and mu_bad = ref 0 in
+  and maxlen = ref 0 and lates = ref 0 and snap_bad = ref 0 and capped = ref false and mu_bad = ref 0 in
   let outcomes = Hashtbl.create 97 in
   let first_deadlock = ref "" in
   while not (Queue.is_empty q) do
@@ -181,7 +208,13 @@ let explore w ffb deps maxstates : string =
        | _ -> ())
     done;
     if int_of_nat (running cx.g s) + int_of_nat s.dead > w then incr bound;
-    if s.race then incr races;
+    if late cx s then incr lates;
+    (* the caller's map, recomputed here independently of the proofs: empty before the return, every entry
+       is the entry of the walker's own map *)
+    for i = 0 to cx.n - 1 do
+      let e = s.snap cx.nats.(i) in
+      if (not s.ret && e <> Absent) || (e <> Absent && e <> entry_of (s.st cx.nats.(i))) then incr snap_bad
+    done;
     let en = enabled cx.g cx.c s in
     if terminalb cx.g cx.c s then begin
       incr terminals;
@@ -195,14 +228,20 @@ let explore w ffb deps maxstates : string =
         cx.s <- s;
         if apply cx e then begin
           if int_of_nat (mu cx.g cx.c cx.s) >= m0 then incr mu_bad;
+          (* ... and no event after the return changes it; WalkReturn copies the own map *)
+          for i = 0 to cx.n - 1 do
+            let k = cx.nats.(i) in
+            if s.ret && cx.s.snap k <> s.snap k then incr snap_bad;
+            if (not s.ret) && cx.s.ret && cx.s.snap k <> entry_of (s.st k) then incr snap_bad
+          done;
           let k = key cx in
           if not (Hashtbl.mem seen k) then
             if Hashtbl.length seen >= maxstates then capped := true
             else begin Hashtbl.add seen k (); Queue.add (cx.s, d + 1) q end
         end) en
   done;
-  Printf.sprintf "explore states=%d terminal=%d deadlocks=%d depsfirst_viol=%d bound_viol=%d mu_viol=%d race_states=%d maxlen=%d outcomes=%d capped=%s%s"
-    !states !terminals !deadlocks !df !bound !mu_bad !races !maxlen (Hashtbl.length outcomes) (b01 !capped)
+  Printf.sprintf "explore states=%d terminal=%d deadlocks=%d depsfirst_viol=%d bound_viol=%d mu_viol=%d snap_viol=%d late_states=%d maxlen=%d outcomes=%d capped=%s%s"
+    !states !terminals !deadlocks !df !bound !mu_bad !snap_bad !lates !maxlen (Hashtbl.length outcomes) (b01 !capped)
     (if !first_deadlock = "" then "" else " first_deadlock=" ^ !first_deadlock)
 
 (* splitmix64 on OCaml's 63-bit ints is not bit-compatible with vlib.Rng; the seed comes from
@@ -242,7 +281,10 @@ let () =
            | ["state"] -> show !cur
            | ["enabled"] -> String.concat ";" (List.map ev_name (enabled !cur.g !cur.c !cur.s))
            | ["obs"; sS; sEnq; sB1; sB2; sOk; sFail; r] ->
+             observe !cur (set_of sS) (set_of sEnq) (set_of sB1) (set_of sB2) (set_of sOk) (set_of sFail) (r = "1") None
+           | ["obs"; sS; sEnq; sB1; sB2; sOk; sFail; r; rOk; rFail] ->
              observe !cur (set_of sS) (set_of sEnq) (set_of sB1) (set_of sB2) (set_of sOk) (set_of sFail) (r = "1")
+               (Some (set_of rOk, set_of rFail))
            | ["replay"; w; f; deps; evs] ->
              let cx = mk_ctx (int_of_string w) (f = "1") deps in
              let parts = List.map (fun e ->
